@@ -159,7 +159,7 @@ def replay(w):
         return got != ("ok", w["expected"])
     if w["kind"] == "avp":
         import bromelia.avps as A
-        cls = getattr(A, w["cls"])
+        cls = absavp.lib_class(w["cls"])
         arg = w["n"] if w["form"] == "int" else str(w["n"])
         try:
             got = cls(arg).data.hex()
